@@ -322,6 +322,24 @@ Proof.
   exists 480%Q, 300%Q, (1 # 4)%Q, (1 # 2)%Q. vm_compute. repeat split; congruence || reflexivity.
 Qed.
 
+(* The depot deadline the ENVIRONMENT reads is the emitted depot window end int(max_time) (step 6 writes max_time into an
+   int tensor).  For an integer max_time it is max_time itself; for a non-integer one it is smaller than the bound the
+   customers' upper ends were computed with, and "hi + dur + d <= max_time" no longer gives the return in time. *)
+Lemma cvrptw_depot_deadline_integer z : 0 <= z -> snd (cvrptw_depot_window (inject_Z z)) = z.
+Proof.
+  intros Hz. unfold cvrptw_depot_window. cbn [snd]. rewrite Qtrunc_nonneg; [apply Qfloor_Z|].
+  change 0%Q with (inject_Z 0). apply inject_Z_le. exact Hz.
+Qed.
+Example cvrptw_noninteger_deadline_refuted :
+  exists T d t1 t2 : Q, (0 <= d)%Q /\ (0 <= t1)%Q /\ (t1 < 1)%Q /\ (0 <= t2)%Q /\ (t2 < 1)%Q /\ (d <= T - d - 0)%Q /\
+    Qfloor d + 1 <= Qfloor (T - d - 0) /\
+    let w := cvrptw_window T d 0 t1 t2 in
+    let H := inject_Z (snd (cvrptw_depot_window T)) in
+    cvrptw_customer_okb T d 0 w = true /\ cvrptw_customer_okb H d 0 w = false /\ w = (479, 480) /\ (H == 480)%Q.
+Proof.
+  exists (961 # 2)%Q, (1 # 4)%Q, (511 # 512)%Q, (4095 # 4096)%Q. vm_compute. repeat split; congruence || reflexivity.
+Qed.
+
 (* ================================================================== MTVRP *)
 (* get_vehicle_capacity(num_loc): 30 + num_loc // 5 above 20 nodes; above 1000 nodes 30 + 200 + (num_loc - 1000) // 33.3 *)
 Definition get_vehicle_capacity (n : Z) : Z :=
